@@ -101,6 +101,7 @@ let run_cubic_pred which toks =
     let mss = z_of_string mss in
     if which = "core" then (if c15_obs_core mss ops obs then "OK" else "FAIL c15_obs_core")
     else if not (c15_obs_core mss ops obs) then "FAIL c15_obs_core"
+    else if not (c15_obs_ok_b mss ops obs) then "FAIL c15_obs_ok_b"
     else if c15_obs_ok mss ops obs then "OK" else "FAIL c15_obs_ok"
   | [] -> failwith "cubic_pred: missing mss"
 
